@@ -23,7 +23,7 @@ BACKENDS = {
 # property classes (from the CBMC property id) that count as a violation of a carquet property
 HARD_CLASSES = ('assertion', 'pointer_dereference', 'array_bounds', 'precondition', 'memory-leak', 'pointer_primitives',
                 'division-by-zero', 'bounds', 'pointer', 'enum-range-check', 'NaN')
-UB_NOTE_CLASSES = ('overflow', 'undefined-shift', 'pointer_arithmetic', 'conversion')
+UB_NOTE_CLASSES = ('overflow', 'undefined-shift', 'pointer_arithmetic', 'pointer-arithmetic', 'conversion')
 
 
 class E1:
@@ -79,6 +79,9 @@ class E1:
             cmd += ['--trace']
         if prop:
             cmd += ['--property', prop]
+        elif getattr(self, '_selected', None):
+            for pid_ in self._selected:
+                cmd += ['--property', pid_]
         return cmd
 
     def _env(self, backend):
@@ -86,6 +89,29 @@ class E1:
         if backend == 'cvc5' and self.cvc5_int:
             env['PATH'] = os.path.join(VERIF, 'bin', 'shim-cvc5-int') + ':' + env['PATH']
         return env
+
+    def _select_properties(self, gb):
+        """CBMC's built-in checks are FATAL: after a failed one every later property on that path is reported UNKNOWN.
+        The UB-note classes (pointer arithmetic relations such as `ip + n > iend`, overflow, ...) must therefore not be
+        checked at all, otherwise they mask real dereference failures further down.  List all properties and select
+        those outside the UB-note classes (unwinding assertions are generated by symex and are always on)."""
+        cmd = self._cbmc_cmd(gb, 'minisat') + ['--show-properties']
+        self._selected = None
+        rc, out, err, _, _ = run([c for c in cmd], timeout=300)
+        try:
+            js = json.loads(out)
+        except Exception:
+            return None
+        sel = []; dropped = 0
+        for e in js:
+            for pr in e.get('properties', []):
+                name = pr.get('name', '')
+                cls = name.split('.')[-2] if name.count('.') >= 2 else name
+                if cls in UB_NOTE_CLASSES or cls.replace('_', '-') in UB_NOTE_CLASSES:
+                    dropped += 1; continue
+                sel.append(name)
+        self._dropped_ub = dropped
+        return sel if dropped else None
 
     @staticmethod
     def _parse(out):
@@ -158,14 +184,16 @@ class E1:
         d = scratch('cqv-e1-')
         extra = []
         excluded = None
-        if self.exclude and self.exclude in open_finding_ids:
-            extra.append('-DEXCLUDE_' + self.exclude.replace('-', '_')); excluded = self.exclude
+        for ex in ([self.exclude] if isinstance(self.exclude, str) else list(self.exclude or [])):
+            if ex in open_finding_ids:
+                extra.append('-DEXCLUDE_' + ex.replace('-', '_')); excluded = (excluded + ',' + ex) if excluded else ex
         gb, err = self._compile(d, extra)
         mk = lambda status, detail, **kw: Result(self.name, status, self.engine, detail, self.bounds + (' [excluding known finding %s]' % excluded if excluded else ''),
                                                  functions=self.functions, stubs=self.stubs + (['realloc: regrowth cut, asserted unreachable'] if self.stub_realloc else []),
                                                  assumptions=self.assumptions, secs=time.time() - t0, **kw)
         if gb is None:
             return mk('inconclusive', err)
+        self._selected = self._select_properties(gb)
         winner, results = self._sweep(gb, t0 + self.timeout)
         bstat = {b: {'secs': round(r[2], 1), 'definitive': r[3], 'timed_out': r[4], 'err': r[1][:120]} for b, r in results.items()}
         if winner is None:
@@ -213,6 +241,8 @@ class E1:
             # harness/model artefact -> reported as unconfirmed, run is inconclusive for this obligation
             return mk('inconclusive', 'UNCONFIRMED counterexample (did not reproduce natively): ' + detail, stats=stats,
                       sample={'inputs': inputs, 'failed': desc, 'where': where}, replay=path, notes=notes)
+        if unknown:
+            return mk('inconclusive', '%d propert(ies) reported UNKNOWN by CBMC (masked by an earlier failed check) and no hard failure: not a pass' % unknown, stats=stats, notes=notes)
         if unwind_fail:
             return mk('inconclusive', 'unwinding bound too small: ' + ', '.join(unwind_fail[:5]), stats=stats, notes=notes)
         if not witness_ok:
